@@ -46,6 +46,9 @@ def shapes(tier):
             out.append({"op": "pack_unpack", "n": n, "nonlinear_only": nl_only})
         out.append({"op": "index", "n": n})
         out.append({"op": "reduce", "n": n})
+    # call history on one object: times asked for, then M0 / P re-assigned, then asked again
+    out.append({"op": "time_with_phase", "n": 2, "P_unit": "day", "angle_unit": "rad", "history": "setitem"})
+    out.append({"op": "time_with_phase", "n": 1, "P_unit": "sym", "angle_unit": "deg", "history": "setitem"})
     return out
 
 
@@ -119,6 +122,14 @@ def run_shape(shape, tier):
             s, cells, un, tref = _mk_samples(st, shape, n, P_unit=shape["P_unit"], angle_unit=shape["angle_unit"])
             ph = core.real("phase")
             phq = units.Quantity(ph, {"rad": units.rad, "deg": units.deg}[shape["angle_unit"]])
+            if shape.get("history"):
+                s.get_t0()
+                s.get_time_with_phase(units.Quantity(core.real("phase_before"), units.rad))
+                for c in ("M0", "P"):
+                    cells[c] = [core.real("%s_new_%d" % (c, i)) for i in range(n)]
+                    s[c] = units.Quantity(symnp.SymArray(symnp._obj(cells[c]), symnp._F8), un[c])
+                for i in range(n):
+                    core.assume(cells["P"][i] > 0)
             T = s.get_time_with_phase(phq)
             T0 = s.get_t0()
             # error protocol
@@ -342,6 +353,14 @@ def replay(cand):
             meta_ok(o, "wrap_K")
         elif op == "time_with_phase":
             ph = f(m.get("phase", "0")) * au[shape["angle_unit"]]
+            if shape.get("history"):
+                # the shape's call history: the model's rows are the re-assigned ones; other values were there when first asked
+                for c, off in (("M0", 1.0), ("P", 2.5)):
+                    s[c] = (raw[c] + off) * un[c]
+                s.get_t0()
+                s.get_time_with_phase(0.3 * u.rad)
+                for c in ("M0", "P"):
+                    s[c] = raw[c] * un[c]
             for what, T, phase in (("get_time_with_phase", s.get_time_with_phase(ph), ph), ("get_t0", s.get_t0(), 0 * u.rad)):
                 T = np.atleast_1d(T.tcb.mjd)
                 Pd = (raw["P"] * un["P"]).to_value(u.day)
